@@ -78,6 +78,9 @@ func New(c *sym.Ctx, prog *ssa.Program) *Exec {
 		strObjs: map[string]*Obj{}, loopCache: map[*ssa.Function]*loopInfo{}, StubCalls: map[string]int{}, TermsBy: map[string]int{}, Notes: map[string]int{}}
 }
 
+// sentinelType is the dynamic type given to package-level error sentinels.
+var sentinelType = types.NewPointer(types.NewNamed(types.NewTypeName(0, nil, "errorSentinel", nil), types.NewStruct(nil, nil), nil))
+
 type deferred struct {
 	g    *Term
 	call *ssa.CallCommon
@@ -502,6 +505,11 @@ func (x *Exec) global(g *ssa.Global) *Obj {
 	}
 	if v == nil {
 		v = x.zero(et)
+		// package-level error variables (io.EOF, ErrChunkInvalid, ...) are distinct non-nil sentinels
+		if iv, ok := v.(*IfaceV); ok && iv.IsNil.IsConst() && types.Identical(et, types.Universe.Lookup("error").Type()) {
+			so := x.newObj("errsentinel:"+g.String(), nil, x.C.Const(8, 0))
+			v = &IfaceV{IsNil: x.C.False, Typ: sentinelType, V: ptrTo(so, x.C.True)}
+		}
 	}
 	o := x.newObj("global:"+g.String(), et, v)
 	x.Globals[g] = o
@@ -622,6 +630,11 @@ func (x *Exec) value(f *frame, ins ssa.Value) Val {
 			fail("make([]T) with symbolic capacity in %s", f.fn.String())
 		}
 		et := v.Type().Underlying().(*types.Slice).Elem()
+		if cp.C == 0 {
+			// make([]T, 0): give the empty slice a hidden capacity so that later appends stay in one backing array
+			// (growth reallocations of initially empty slices are not modelled; cap() is not Go's growth formula)
+			cp = c.Const(cp.W, 32)
+		}
 		at := types.NewArray(et, int64(cp.C))
 		o := x.newObj("make@"+f.fn.Name(), at, x.zero(at))
 		return &SliceV{Obj: o, Off: x.i64(0), Len: c.ZExt(n, 64), Cap: c.ZExt(cp, 64)}
@@ -750,7 +763,14 @@ func (x *Exec) slice(f *frame, v *ssa.Slice) Val {
 		x.panicIf(f, c.Or(c.Ult(base.Cap, hi), c.Ult(hi, lo), c.Ult(mx, hi), c.Ult(base.Cap, mx)), "slice bounds out of range", v.Pos())
 		return &SliceV{Obj: base.Obj, Path: base.Path, Off: c.Add(base.Off, lo), Len: c.Sub(hi, lo), Cap: c.Sub(mx, lo)}
 	case *PtrV: // pointer to array
-		n := v.X.Type().Underlying().(*types.Pointer).Elem().Underlying().(*types.Array).Len()
+		at := v.X.Type().Underlying().(*types.Pointer).Elem().Underlying().(*types.Array)
+		n := at.Len()
+		if n == 0 {
+			// make([]T, 0) with a constant size: give the empty slice a hidden capacity (see MakeSlice)
+			nat := types.NewArray(at.Elem(), 32)
+			o := x.newObj("make0@"+f.fn.Name(), nat, x.zero(nat))
+			return &SliceV{Obj: o, Off: x.i64(0), Len: x.i64(0), Cap: x.i64(32)}
+		}
 		lo := opt(v.Low, x.i64(0))
 		hi := opt(v.High, x.i64(n))
 		mx := opt(v.Max, x.i64(n))
@@ -1310,7 +1330,33 @@ func (x *Exec) appendSlice(f *frame, call *ssa.CallCommon, args []Val, p token.P
 	if s.Obj == nil || (fits.IsConst() && fits.C == 0) {
 		// grow: new backing array
 		if !s.Len.IsConst() {
-			fail("append growing a slice of symbolic length in %s", f.fn.String())
+			// symbolic length with a small upper bound: reallocate to a generous capacity (cap() is not Go's growth
+			// formula; elements beyond Len are unobservable)
+			ub := s.Len.UMax()
+			if ub > 256 {
+				fail("append growing a slice of unbounded symbolic length in %s", f.fn.String())
+			}
+			ncap := int(ub) + n + 16
+			at := types.NewArray(et, int64(ncap))
+			na := x.zero(at)
+			if t, ok := na.(*TableV); ok {
+				na = x.tableToArray(t)
+			}
+			arr := na.(*ArrayV)
+			if s.Obj != nil {
+				for i := 0; i < int(ub); i++ {
+					arr.E[i] = x.sliceElem(s, x.i64(int64(i)))
+				}
+			}
+			o := x.newObj("append@"+f.fn.Name(), at, arr)
+			ns := &SliceV{Obj: o, Off: x.i64(0), Len: s.Len, Cap: x.i64(int64(ncap))}
+			for i := 0; i < n; i++ {
+				el := x.sliceElem(more, x.i64(int64(i)))
+				path := []PathEl{{Field: -1, Idx: c.Add(ns.Len, x.i64(int64(i)))}}
+				o.V = x.storePath(o.V, path, el, c.True)
+			}
+			ns.Len = need
+			return ns
 		}
 		old := int(s.Len.C)
 		ncap := max(2*old, old+n, 4)
